@@ -32,7 +32,7 @@
    are the record of the defect: facts about the command as it shipped, independent of the switch.
    Arguments are C strings (argv), hence the [cstr] on the specification side. *)
 From Robsd Require Import Step.StepSpec Step.StepRows Step.StepWrite Step.StepHistory Step.StepFault Step.StepExit0
-  Step.StepRenumber Step.StepLatest Step.StepNameSpec Step.StepRead Step.StepOracle Interp.InterpSpec.
+  Step.StepRenumber Step.StepLatest Step.StepNameSpec Step.StepRead Step.StepOracle Step.StepOracle2 Step.StepExit0History Interp.InterpSpec.
 From Robsd Require Import Lock.LockOps Lock.LockTie.
 From RobsdGen Require Import Gen_Step Gen_Lock.
 Local Open Scope N_scope.
@@ -265,6 +265,33 @@ Theorem C01_exit0_any_partial_write : forall fault content rows idarg kvs,
 Proof. exact exit0_any_fault. Qed.
 Print Assumptions C01_exit0_any_partial_write.
 
+(* CLAUSE 3 WITHOUT A HYPOTHESIS ON THE FILE: the guard [Forall okrow rows] is discharged for the producer.
+   After ANY history of robsd-step -W commands from the empty file (every argument list; by the switch), for
+   every next command and every refusal point (none, the first k bytes for any k, the flush): exit 0 only if
+   the arguments were acceptable and the file is header + the rows asked for, and it reads back as these rows *)
+Theorem C01_exit0_after_any_history : forall ws idarg kvs,
+  (forall fault, fst (write_cmdk fault (Some (fold_left model_step ws [])) idarg kvs) = 0 ->
+     exists ds id rs b,
+       Forall wfdata ds /\ sorted ds /\ parse_file (fold_left model_step ws []) = Some (map row_of ds) /\
+       denote_id (cstr idarg) = Some id /\ spec_update (map row_of ds) id (map cstr kvs) = Some rs /\
+       serialize_rows (sort_rows rs) = Some b /\
+       snd (write_cmdk fault (Some (fold_left model_step ws [])) idarg kvs) = Some (header ++ b) /\
+       parse_file (header ++ b) = Some (sort_rows rs)) /\
+  (forall fault, fst (write_cmd fault (Some (fold_left model_step ws [])) idarg kvs) = 0 ->
+     fault = false /\
+     exists ds id rs b,
+       Forall wfdata ds /\ sorted ds /\ parse_file (fold_left model_step ws []) = Some (map row_of ds) /\
+       denote_id (cstr idarg) = Some id /\ spec_update (map row_of ds) id (map cstr kvs) = Some rs /\
+       serialize_rows (sort_rows rs) = Some b /\
+       snd (write_cmd fault (Some (fold_left model_step ws [])) idarg kvs) = Some (header ++ b) /\
+       parse_file (header ++ b) = Some (sort_rows rs)).
+Proof.
+  exact (fun ws idarg kvs =>
+           conj (fun fault => exit0_after_history ws fault idarg kvs (never_renumbers_checked eq_refl ws []))
+                (fun fault => exit0_flush_after_history ws fault idarg kvs (never_renumbers_checked eq_refl ws []))).
+Qed.
+Print Assumptions C01_exit0_after_any_history.
+
 (* outside the guard (a hand-made file with name "${user}"): exit 0 and the file does NOT read back as
    the rows asked for *)
 Theorem C01_exit0_holds_state_refuted :
@@ -305,7 +332,23 @@ Proof. exact (conj empty_file_reads_fail (conj cut_at_row_boundary unparsable_is
 Print Assumptions C01_after_refused_write.
 
 (* hence clause (1) does not survive a refused write in the history: ids 1 and 2 written, write 3
-   refused entirely (exit 1, empty file), write 4 accepted: only id 4 is left, reading "one" fails *)
+   refused entirely (exit 1, empty file), write 4 accepted: only id 4 is left, reading "one" fails.
+   KNOWN FINDING refused-write-damages-file.  The harness recognises it by the CASE: a fault plan with
+   k < length of the new content was injected into that very write, the command exited 1 and the file is
+   exactly the first k bytes of the new content (c01.py refusal_class); any other damage by a failing
+   write has its own signature (failed-write-damaged-file).
+   MOST LIKELY TRIGGER (no full disk needed): C07's takedown sends SIGTERM to the process GROUP of the
+   step; a `robsd-step -W` of that group (util.sh step_write) that is between fopen("we") and fclose dies
+   there, the kernel drops its flock, and the file is left in exactly the k = 0 state (nothing has left
+   stdio yet; for a file of several stdio blocks killed inside fclose: a block-aligned prefix).  The harness
+   replays this on the real binary (lane `kill`: SIGTERM at the sync points step.before_truncate /
+   step.after_truncate; outside C01's quantifier - a killed command reports no exit status - so counted,
+   not judged; the bytes left are compared with the k = 0 state of [write_cmdk]).
+   WHAT THE OTHERS EXPERIENCE (Properties_C02): a waiter blocked in flock gets the lock next and reads
+   exactly [firstn k new] (C02_waiter_reads_cut); if that does not parse, every later command of the
+   invocation exits 1 and the file never changes again under any schedule (C02_poisoned_run): one ENOSPC
+   or one kill poisons the run; if it parses (k = 0, a row boundary) the next writer silently continues
+   from a file that lacks rows. *)
 Theorem C01_refused_write_forgets_rows_refuted :
   let f2 := fold_left model_step [([49], fw_full [111;110;101]); ([50], fw_full [116;119;111])] [] in
   let r3 := write_cmdk (Some 0%nat) (Some f2) [51] (fw_full [116;104;114;101;101]) in
@@ -332,6 +375,41 @@ Theorem C01_names_oracle_accepts_model : forall ws reads,
   spec_ok_names (model_obs_writes [] ws) (map (model_obs_read_name (fold_left model_step ws [])) reads) = true.
 Proof. exact (fun ws reads => names_oracle_accepts_model ws reads (never_renumbers_checked eq_refl ws [])). Qed.
 Print Assumptions C01_names_oracle_accepts_model.
+
+(* THE ORACLE THE HARNESS APPLIES NOW is two-sided ([spec_ok_history2], [spec_ok_names2]): a write the
+   implementation accepted must be acceptable to the dictionary specification AND a write the specification
+   accepts must have been accepted (exit 0); the reads then check that it was stored.  It accepts what the
+   model does, on every history *)
+Theorem C01_oracle2_accepts_model : forall ws reads nreads,
+  Forall (fun q => In (snd q) fields /\ (id_min <= fst q <= id_max)%Z) reads ->
+  Forall (fun q => In (snd q) fields) nreads ->
+  spec_ok_history2 (model_obs_writes [] ws) (map (model_obs_read (fold_left model_step ws [])) reads) = true /\
+  spec_ok_names2 (model_obs_writes [] ws) (map (model_obs_read_name (fold_left model_step ws [])) nreads) = true.
+Proof.
+  exact (fun ws reads nreads H1 H2 =>
+           conj (oracle2_accepts_model ws reads (never_renumbers_checked eq_refl ws []) H1)
+                (names_oracle2_accepts_model ws nreads (never_renumbers_checked eq_refl ws []) H2)).
+Qed.
+Print Assumptions C01_oracle2_accepts_model.
+
+(* what "two-sided" means: it is at least as strict as the one-sided oracle; refusing ONE write that the
+   specification accepts - anywhere in a history, whatever is read afterwards - makes it fail; and the
+   command that refuses everything, which the one-sided oracle accepts, is rejected *)
+Theorem C01_oracle_two_sided :
+  (forall ws reads, spec_ok_history2 ws reads = true -> spec_ok_history ws reads = true) /\
+  (forall ws nreads, spec_ok_names2 ws nreads = true -> spec_ok_names ws nreads = true) /\
+  (forall pre s1 idarg kvs post reads,
+     replay_writes2 [] pre = Some s1 -> spec_write s1 idarg kvs <> None ->
+     spec_ok_history2 (pre ++ (idarg, kvs, false) :: post) reads = false /\
+     (forall nreads, spec_ok_names2 (pre ++ (idarg, kvs, false) :: post) nreads = false)) /\
+  (spec_ok_history [w_one] [(1%Z, [110;97;109;101], None)] = true /\
+   spec_ok_history2 [w_one] [(1%Z, [110;97;109;101], None)] = false /\
+   first_mismatch [] [w_one] 0 = Some (0%nat, true)).
+Proof.
+  exact (conj ok_history2_ok_history (conj ok_names2_ok_names
+          (conj refusal_of_acceptable_write_fails reject_everything_witness))).
+Qed.
+Print Assumptions C01_oracle_two_sided.
 
 (* ---- values ---------------------------------------------------------------------------------------------------------------- *)
 
